@@ -311,7 +311,7 @@ func (self *ReplicationBufferQueue) Pop(cursor *ReplicationBufferQueueCursor) er
 			self.glock.RUnlock()
 			return io.EOF
 		}
-		if currentItem.seq-cursor.seq != 1 && currentItem.seq != 0 && cursor.seq != 0xffffffffffffffff {
+		if currentItem.seq-cursor.seq != 1 && currentItem.seq != 0 {
 			self.glock.RUnlock()
 			return errors.New("out of buf")
 		}
